@@ -675,6 +675,12 @@ def e2e_one(ctx, cases, tmp, rng_seed, with_output=True, stale_file=False):
     target = cases[0]["target"]
     link = "magnet:?xt=urn:btih:%s&tr=udp://127.0.0.1:%d" % (target.hex(), tr.port)
     argv = ["torrent", "from-link", link] + (["--output", "out.torrent"] if with_output else [])
+    # options of from-link the check does not know (read from --help) are given in every second run: whatever they add, the fetch
+    # still ends with exit status 0 or 1 and the written dictionary is the served one (seeded change C11-16: a new --show that
+    # panicked on a size sum after the file had been written)
+    if rng_seed % 2:
+        for flag, val in lib.unknown_options(ctx.bins["imdl"], ["torrent", "from-link"]):
+            argv += [flag] + ([val] if val is not None else [])
     stale = None
     if with_output and stale_file:
         # something longer than any torrent of this run is already at the output path (an earlier fetch): the new torrent
